@@ -87,8 +87,8 @@ func refNum(s string) (int, bool) {
 	return v, true
 }
 
-// refParse returns (bitmap, valid).
-func refParse(s string) (*bitmap, bool) {
+// puRefParse returns (bitmap, valid).
+func puRefParse(s string) (*bitmap, bool) {
 	var bm bitmap
 	if s == "all" || s == "*" {
 		for i := range bm {
@@ -250,7 +250,7 @@ func (c *puComp) Run(op string) vh.Result {
 	case "parse":
 		s := string(vh.UnHex(f[1]))
 		u := utils.ParsePortUnion(s)
-		bm, valid := refParse(s)
+		bm, valid := puRefParse(s)
 		if u == nil {
 			var fails []string
 			if valid {
